@@ -40,6 +40,9 @@ type Case struct {
 	// Later: after the handler under test has been made, the settings of the
 	// FuncInfo are flipped and another handler is made; the first one keeps its own.
 	Later bool `json:"later,omitempty"`
+	// DeadCtx: the handler is invoked with a context that has already ended
+	// (a request cancelled while it was queued): the outcome is the same.
+	DeadCtx bool `json:"dead_ctx,omitempty"`
 }
 
 type ctxKey struct{}
@@ -323,6 +326,11 @@ func run(_ *testing.T, c Case) (v engine.Verdict) {
 		return engine.Verdict{Labels: []string{"skipped:params-not-structured"}}
 	}
 	ctx := context.WithValue(context.Background(), ctxKey{}, "mine")
+	if c.DeadCtx {
+		dctx, cancel := context.WithCancel(ctx)
+		cancel()
+		ctx = dctx
+	}
 	var res any
 	var herr error
 	if p := func() (p any) {
@@ -467,6 +475,23 @@ func genParams(t *rapid.T, arg *TypeDesc) *string {
 	if base.K == "ptr" {
 		base = *base.Elem
 	}
+	if base.K == "ptr" && rapid.IntRange(0, 2).Draw(t, "deepptrarr") == 0 {
+		// **T and deeper: the array mapping is documented for T and *T only, an
+		// array of exactly as many elements as T has fields is no exception
+		inner := base
+		for inner.K == "ptr" {
+			inner = *inner.Elem
+		}
+		if inner.K == "struct" || inner.K == "named" {
+			if names, ok := posNames(inner.Type()); ok && len(names) > 0 {
+				var elems []string
+				for _, n := range names {
+					elems = append(elems, elemFor(t, inner.Type(), n))
+				}
+				return p("[" + strings.Join(elems, ",") + "]")
+			}
+		}
+	}
 	val := GenJSON(t, *arg)
 	isStruct := base.K == "struct" || (base.K == "named" && base.Name != "CustomU" && base.Name != "TextU")
 	if isStruct && rapid.IntRange(0, 1).Draw(t, "asarray") == 0 {
@@ -563,6 +588,13 @@ func genCase(t *rapid.T) Case {
 		c.Fn.Arg = &TypeDesc{K: "request"}
 	default:
 		a := GenType(t, 0, true)
+		if (a.K == "struct" || a.K == "named") && rapid.IntRange(0, 7).Draw(t, "deepptr") == 0 {
+			// a pointer to a pointer to a struct: an ordinary argument type for
+			// objects, but not one the array mapping is documented for
+			inner := a
+			p1 := TypeDesc{K: "ptr", Elem: &inner}
+			a = TypeDesc{K: "ptr", Elem: &p1}
+		}
 		c.Fn.Arg = &a
 	}
 	switch rapid.IntRange(0, 2).Draw(t, "resk") {
@@ -587,6 +619,7 @@ func genCase(t *rapid.T) Case {
 	c.Strict = rapid.SampledFrom([]string{"", "", "true", "false"}).Draw(t, "strict")
 	c.Array = rapid.SampledFrom([]string{"", "", "true", "false"}).Draw(t, "array")
 	c.Later = rapid.IntRange(0, 5).Draw(t, "later") == 0
+	c.DeadCtx = rapid.IntRange(0, 5).Draw(t, "deadctx") == 0
 	if rapid.IntRange(0, 3).Draw(t, "hist") == 0 {
 		for i, n := 0, rapid.IntRange(1, 4).Draw(t, "nhist"); i < n; i++ {
 			c.History = append(c.History, rapid.SampledFrom([]string{"wrap", "wrap", "strict:true", "strict:false", "array:true", "array:false"}).Draw(t, "hop"))
